@@ -99,7 +99,8 @@ def run_cgls(c, rec):
 def pcgls_cases(draw, tier="quick"):
     c = draw(lin_cases(tier, nmin=2))  # a 1x1 sparse preconditioner is not invertible by scipy.sparse.linalg.inv
     n = c["n"]
-    c["Pkind"] = draw(st.sampled_from(["identity", "diag", "tridiag"]))
+    c["Pkind"] = draw(st.sampled_from(["identity", "diag", "tridiag", "upper_bidiag", "lower_tri"]))
+    c["Pl"] = draw(gen.mat(n, n, -0.3, 0.3))
     c["Pd"] = draw(st.lists(gen.fl(0.5, 3.0), min_size=n, max_size=n))
     c["Po"] = draw(gen.fl(-0.2, 0.2))
     return c
@@ -115,8 +116,12 @@ def run_pcgls(c, rec):
         P = np.eye(n)
     elif c["Pkind"] == "diag":
         P = np.diag(c["Pd"])
-    else:
+    elif c["Pkind"] == "tridiag":
         P = np.diag(c["Pd"]) + c["Po"] * (np.eye(n, k=1) + np.eye(n, k=-1))
+    elif c["Pkind"] == "upper_bidiag":  # non-symmetric preconditioners exercise the adjoint application of P^-1
+        P = np.diag(c["Pd"]) + 0.4 * np.eye(n, k=1)
+    else:
+        P = np.diag(c["Pd"]) + np.tril(A(c["Pl"]), -1)
     tags = {"solver": "PCGLS", "form": c["form"], "P": c["Pkind"], "shape": "over" if m > n else ("under" if m < n else "square")}
     if rec.classify(tags, c["Pkind"] != "identity" and (m != n or np.any(x0 != 0))):
         return
